@@ -1,7 +1,7 @@
 (* Dispatcher used by the correspondence check: the model's answer for one case line.
    Function codes are assigned in driver/fncodes.py (single source of the numbering). *)
 From Coq Require Import NArith List Bool.
-From RQ Require Import Base.Outcome Base.Ints Base.ListX Spec.GF256 Model.Octet.
+From RQ Require Import Base.Outcome Base.Ints Base.ListX Gen.Consts Spec.GF256 Spec.Wire Spec.Oti Model.Octet Model.Wire Model.Oti Model.Cache.
 Import ListNotations.
 Open Scope N_scope.
 
@@ -36,6 +36,42 @@ Definition run_octet (f : N) (a : list N) : list N :=
   | _ => [0; 99]
   end.
 
+Definition b2n (b : bool) : N := if b then 1 else 0.
+Definition enc_pid (x : outcome (N * N)) : list N :=
+  match x with Ok (s, e) => [1; s; e] | Panic c => [0; pcode c] end.
+Definition oti_list (x : oti) : list N := let '(F, T, Z, Nsub, Al) := x in [F; T; Z; Nsub; Al].
+Definition enc_oti (x : outcome oti) : list N :=
+  match x with Ok o => 1 :: oti_list o | Panic c => [0; pcode c] end.
+
+Fixpoint triples (l : list N) : list (N * N * N) :=
+  match l with
+  | a :: b :: c :: t => (a, b, c) :: triples t
+  | _ => []
+  end.
+
+(* wire formats, OTI constructor, plan cache: 100..199; Spec oracles 150..199 *)
+Definition run_wire (f : N) (a : list N) : list N :=
+  match f with
+  | 100 => enc_pid (pid_new (arg a 0) (arg a 1))
+  | 101 => encl (omap pid_ser (pid_new (arg a 0) (arg a 1)))
+  | 102 => encl (omap (fun p => [fst p; snd p] ++ pid_ser p) (pid_deser (firstn 4 a)))
+  | 103 => encl (omap (fun p => pkt_ser (p, skipn 2 a)) (pid_new (arg a 0) (arg a 1)))
+  | 104 => encl (omap (fun p => fst (fst p) :: snd (fst p) :: snd p) (pkt_deser a))
+  | 105 => encl (omap oti_ser (oti_new Release (arg a 0) (arg a 1) (arg a 2) (arg a 3) (arg a 4)))
+  | 106 => encl (omap (fun o => oti_list o ++ oti_ser o) (oti_deser (firstn 12 a)))
+  | 110 => enc_oti (oti_new Release (arg a 0) (arg a 1) (arg a 2) (arg a 3) (arg a 4))
+  | 111 => enc_oti (oti_new Checked (arg a 0) (arg a 1) (arg a 2) (arg a 3) (arg a 4))
+  | 112 => enc_oti (oti_new_pinned Release (arg a 0) (arg a 1) (arg a 2) (arg a 3) (arg a 4))
+  | 120 => 1 :: concat (cache_trace (N.to_nat PLAN_CACHE_CAPACITY) (triples a))
+  (* Spec oracles *)
+  | 150 => 1 :: payload_id_wire (arg a 0) (arg a 1)
+  | 151 => 1 :: oti_wire (arg a 0) (arg a 1) (arg a 2) (arg a 3) (arg a 4)
+  | 152 => [1; b2n (oti_validb (arg a 0) (arg a 1) (arg a 2) (arg a 4))]
+  | 153 => 1 :: be (N.to_nat (arg a 0)) (arg a 1)
+  | _ => [0; 99]
+  end.
+
 Definition run (f : N) (a : list N) : list N :=
   if f <? 100 then run_octet f a
+  else if f <? 200 then run_wire f a
   else [0; 99].
